@@ -212,7 +212,7 @@ def single_key_lemmas(a):
         if foreign:
             isl = [e[3][1] for e in p.events if e[0] == "call" and e[1] == "is_list" and e[2] and same(e[2][0], lhs) and e[3][0] == "bool"]
             bad.append(f"(and {pc_term(p.pc)} (not {isl[0]}))" if isl else pc_term(p.pc))
-    a.discharge("order/lemma/each_lhs_compare-keeps-lhs", ex, bad,
+    c1 = a.discharge("order/lemma/each_lhs_compare-keeps-lhs", ex, bad,
                 f"each_lhs_compare, one right-hand value ({npush} result pushes over all paths), comparator result arbitrary: every "
                 "ComparisonResult pushed carries the lhs Rc it was given, except on paths where lhs.is_list() holds")
     ex2 = a.exec(r"real_binary_operation", {"next": mirexec.m_iter_next, "into_iter": mirexec.m_new_iter, "iter": mirexec.m_new_iter,
@@ -233,9 +233,16 @@ def single_key_lemmas(a):
             ok = bool(prev) and prev[-1][3][0] == "enum" and same(r[2][0], prev[-1][3][3]["Ok"])
             if not ok:
                 bad2.append(pc_term(p.pc))
-    a.discharge("order/lemma/one-lhs-per-report_at_least_one", ex2, bad2,
-                f"real_binary_operation, one left-hand value ({ncall} calls over all paths): report_at_least_one always receives the Ok "
-                "result of the each_lhs_compare call made just before it for that single left-hand value")
+    c2 = a.discharge("order/lemma/one-lhs-per-report_at_least_one", ex2, bad2,
+                     f"real_binary_operation, one left-hand value ({ncall} calls over all paths): report_at_least_one always receives the Ok "
+                     "result of the each_lhs_compare call made just before it for that single left-hand value")
+    cands = [c for c in (c1, c2) if c]
+    if cands:
+        rep = replay_determinism(a)
+        for c in cands:
+            c["replay"] = rep
+            c["reproduced"] = rep.get("reproduced", False)
+            a.candidates.append(c)
 
 
 def order_independence(a):
@@ -345,6 +352,10 @@ rule omega {
   Resources[ keys == /^b/ ].Properties.Size in [1, 2, 3]
   Resources.*.Type in ['AWS::S3::Bucket', 'AWS::SNS::Topic']
 }
+rule keyin {
+  Resources[ keys in ['b1', 'b2', 't1', 'c1'] ].Properties.Name == 'zzz'
+  Resources[ keys not in ['b1'] ].Properties.Size < 0
+}
 rule kappa when !alpha {
   a exists
 }
@@ -357,6 +368,22 @@ DATA = """{"Resources": {
   "b2": {"Type": "AWS::S3::Bucket", "Properties": {"Name": "d", "Size": 5, "Tags": [{"Key": "k3"}]}},
   "t1": {"Type": "AWS::SNS::Topic", "Properties": {"Name": "b", "Size": 2}},
   "c1": {"Type": "AWS::EC2::Instance", "Properties": {"Name": "c", "Size": 9}}
+}}
+"""
+# key-case conversion: keys that are not present verbatim, with several case variants next to each other
+RULES_K = """rule variants {
+  Resources.c1.Properties.bucketName == 'a'
+}
+rule lower {
+  resources.*.properties.bucket_name exists
+}
+rule mixed_case {
+  Resources.c1.properties.BucketName == 'a'
+}
+"""
+DATA_K = """{"Resources": {
+  "c1": {"Type": "X", "Properties": {"BucketName": "a", "bucket_name": "b", "bucket-name": "c", "Bucket-Name": "d", "Bucket Name": "e"}},
+  "c2": {"Type": "Y", "Properties": {"BucketName": "z"}}
 }}
 """
 TESTS = """- name: one
@@ -394,11 +421,13 @@ def replay_determinism(a, runs=8):
     env = dict(os.environ)
     env["RUST_BACKTRACE"] = "0"
     try:
-        for fn, text in (("r.guard", RULES), ("d.json", DATA), ("t.yaml", TESTS), ("r2.guard", "rule extra { Resources exists }\nrule extra2 { Resources !exists }\n")):
+        for fn, text in (("r.guard", RULES), ("d.json", DATA), ("t.yaml", TESTS), ("r2.guard", "rule extra { Resources exists }\nrule extra2 { Resources !exists }\n"),
+                         ("rk.guard", RULES_K), ("dk.json", DATA_K)):
             open(os.path.join(d, fn), "w").write(text)
         cmds = {}
         for fmt in ("json", "yaml", "sarif", "junit"):
             cmds[f"validate --structured -o {fmt}"] = ["validate", "-r", "r.guard", "-r", "r2.guard", "-d", "d.json", "--structured", "-o", fmt, "--show-summary", "none"]
+        cmds["validate --structured -o json (key-case variants)"] = ["validate", "-r", "rk.guard", "-d", "dk.json", "--structured", "-o", "json", "--show-summary", "none"]
         cmds["validate -o json"] = ["validate", "-r", "r.guard", "-d", "d.json", "-o", "json", "--show-summary", "none"]
         cmds["validate -o yaml"] = ["validate", "-r", "r.guard", "-d", "d.json", "-o", "yaml", "--show-summary", "none"]
         cmds["validate --verbose --print-json"] = ["validate", "-r", "r.guard", "-d", "d.json", "--verbose", "--print-json", "--show-summary", "none"]
@@ -426,7 +455,7 @@ def replay_determinism(a, runs=8):
                               "first_differing_line": first + 1, "run_a": l1[first:first + 3], "run_b": l2[first:first + 3]})
         notran = [t for t in tried if not t["ran"]]
         return {"reproduced": bool(diffs), "mismatches": diffs[:4], "tried": tried, "note": ("some commands did not run: " + str(notran)) if notran else None,
-                "files": {"r.guard": RULES, "d.json": DATA, "t.yaml": TESTS}}
+                "files": {"r.guard": RULES, "d.json": DATA, "t.yaml": TESTS, "rk.guard": RULES_K, "dk.json": DATA_K}}
     finally:
         shutil.rmtree(d, ignore_errors=True)
 
